@@ -331,6 +331,7 @@ macro_rules! c03_proof {
     };
 }
 c03_proof!(c03_mania_pgradual_n0, 0, 0, 10);
+c03_proof!(c03_mania_pgradual_n1, 1, 0, 10);
 c03_proof!(c03_mania_pgradual_n2, 2, 1, 10);
 c03_proof!(c03_mania_pgradual_n3, 3, 2, 10);
 
@@ -339,7 +340,7 @@ s1_proof!(kf_mania_nth_beyond_end, 2, 1, 6, 0, 1);
 s1_proof!(kf_mania_combo_clock_rate, 2, 1, 6, SKIP_NTH_BEYOND, 2);
 
 verif_replay_table!(verif_replay_mania_gradual;
-    c03_mania_pgradual_n0, c03_mania_pgradual_n2, c03_mania_pgradual_n3,
+    c03_mania_pgradual_n0, c03_mania_pgradual_n1, c03_mania_pgradual_n2, c03_mania_pgradual_n3,
     kf_mania_nth_beyond_end, kf_mania_combo_clock_rate,
     s1_mania_step_n0, s1_mania_step_n1, s1_mania_step_n2, s1_mania_step_n3, s1_mania_step_n4,
 );
